@@ -383,19 +383,19 @@ impl<K: CacheKey + 'static> AsyncCache<K> for MemoryCache<K> {
 
         if let Some(entry) = self.storage.get(key) {
             if entry.is_expired() {
-                // Need to collect info and drop the guard before removing
-                let size_bytes = entry.size_bytes;
                 drop(entry); // Drop the guard before attempting to remove
                 #[cfg(feature = "verif-hooks")]
                 crate::verif_hooks::sched_point("memory.get.expired.before_remove");
 
-                // Remove expired entry
-                if self.storage.remove(key).is_some() {
+                // Remove the entry only if it is still expired: a concurrent put may
+                // have replaced it with a fresh value after the guard was dropped.
+                // Account for the entry that was actually removed.
+                if let Some((_, removed)) = self.storage.remove_if(key, |_, e| e.is_expired()) {
                     #[cfg(feature = "verif-hooks")]
                     crate::verif_hooks::sched_point("memory.get.expired.after_remove");
                     self.entry_count.fetch_sub(1, Ordering::Relaxed);
                     self.memory_usage
-                        .fetch_sub(size_bytes as u64, Ordering::Relaxed);
+                        .fetch_sub(removed.size_bytes as u64, Ordering::Relaxed);
                 }
 
                 self.metrics.record_get(false, start_time.elapsed());
@@ -466,19 +466,17 @@ impl<K: CacheKey + 'static> AsyncCache<K> for MemoryCache<K> {
     async fn contains(&self, key: &K) -> CacheResult<bool> {
         if let Some(entry) = self.storage.get(key) {
             if entry.is_expired() {
-                // Need to collect info and drop the guard before removing
-                let size_bytes = entry.size_bytes;
                 drop(entry); // Drop the guard before attempting to remove
                 #[cfg(feature = "verif-hooks")]
                 crate::verif_hooks::sched_point("memory.contains.expired.before_remove");
 
-                // Clean up expired entry
-                if self.storage.remove(key).is_some() {
+                // Clean up the entry only if it is still expired (see `get`)
+                if let Some((_, removed)) = self.storage.remove_if(key, |_, e| e.is_expired()) {
                     #[cfg(feature = "verif-hooks")]
                     crate::verif_hooks::sched_point("memory.contains.expired.after_remove");
                     self.entry_count.fetch_sub(1, Ordering::Relaxed);
                     self.memory_usage
-                        .fetch_sub(size_bytes as u64, Ordering::Relaxed);
+                        .fetch_sub(removed.size_bytes as u64, Ordering::Relaxed);
                 }
                 Ok(false)
             } else {
@@ -503,11 +501,20 @@ impl<K: CacheKey + 'static> AsyncCache<K> for MemoryCache<K> {
     }
 
     async fn clear(&self) -> CacheResult<()> {
-        self.storage.clear();
+        // Remove entry by entry and account for exactly what was removed, so that
+        // the counters stay consistent with concurrent puts and removes (a blanket
+        // reset to zero would lose the pending adjustment of an in-flight put).
+        let mut removed_entries = 0usize;
+        let mut removed_bytes = 0u64;
+        self.storage.retain(|_, entry| {
+            removed_entries += 1;
+            removed_bytes += entry.size_bytes as u64;
+            false
+        });
         #[cfg(feature = "verif-hooks")]
         crate::verif_hooks::sched_point("memory.clear.before_counters");
-        self.entry_count.store(0, Ordering::Relaxed);
-        self.memory_usage.store(0, Ordering::Relaxed);
+        self.entry_count.fetch_sub(removed_entries, Ordering::Relaxed);
+        self.memory_usage.fetch_sub(removed_bytes, Ordering::Relaxed);
         self.metrics.reset();
         Ok(())
     }
